@@ -582,3 +582,30 @@ V("c10-silent-rule1-difference", "C10", "silent", UT, "    if len(pa(i, A)) > 0 
 V("c10-silent-rule2-disjoint", "C10", "silent", UT, "    return len(ch(i, A) & pa(j, A)) > 0", "    return not ch(i, A).isdisjoint(pa(j, A))", what="rule 2 via isdisjoint")
 V("c10-guard-via-edge-list", "C10", "fire", UT, "    for i in I:\n        if len(neighbors(i, P)) > 0:\n            msg = \"Invalid PDAG: has undirected edges around %d for I=%s\"\n            raise ValueError(msg % (i, I))\n",
   "    for (i, _) in undirected_edges(P):\n        if i in I:\n            msg = \"Invalid PDAG: has undirected edges around %d for I=%s\"\n            raise ValueError(msg % (i, I))\n", rule="GUARD.undirected-at-target", what="only the larger endpoint of each undirected edge is compared with the targets")
+
+# ------------------------------------------------------------------------------- round-2 inspired (C19, C20)
+DRF_NEW = "                    # Using default values from DRF repository\n                    DRF = drf.drf(\n                        min_node_size=15, num_trees=2000, splitting_rule=\"FourierMMD\"\n                    )\n"
+V("c19-forest-hoisted", "C19", "fire", SE, DRF_NEW, "", rule="SLOTS.fresh",
+  more=[(SE, "                for k in range(self.e):\n                    print(\n                        \"    fitting environment", "                DRF = drf.drf(min_node_size=15, num_trees=2000, splitting_rule=\"FourierMMD\")\n                for k in range(self.e):\n                    print(\n                        \"    fitting environment")],
+  what="one forest wrapper per node: every environment's slot aliases the object that holds the last fit")
+V("c19-forest-hoisted-top", "C19", "fire", SE, DRF_NEW, "", rule="SLOTS.fresh",
+  more=[(SE, "        self._random_forests = np.empty((self.p, self.e), dtype=object)\n", "        self._random_forests = np.empty((self.p, self.e), dtype=object)\n        DRF = drf.drf(min_node_size=15, num_trees=2000, splitting_rule=\"FourierMMD\")\n")],
+  what="a single forest wrapper for the whole network")
+V("c19-silent-forest-after-frames", "C19", "silent", SE, DRF_NEW, "",
+  more=[(SE, "                    DRF.fit(X, Y)\n", "                    DRF = drf.drf(min_node_size=15, num_trees=2000, splitting_rule=\"FourierMMD\")\n                    DRF.fit(X, Y)\n")],
+  what="wrapper built just before the fit, still once per (node, environment)")
+V("c20-partial-bound-method", "C20", "fire", NO, "import numpy as np\n", "import numpy as np\nfrom functools import partial\n", rule="R6.copy-stable",
+  more=[(NO, "return lambda n: np.random.normal(mean, var**0.5, n)", "return partial(np.random.normal, mean, var**0.5)")],
+  what="partial over a bound method of the global RandomState: ANM's deepcopy clones the generator")
+V("c20-silent-partial-function", "C20", "silent", NO, "import numpy as np\n", "import numpy as np\nfrom functools import partial\n",
+  more=[(NO, "def normal(mean=0, var=1):\n    return lambda n: np.random.normal(mean, var**0.5, n)", "def _normal(mean, sd, n):\n    return np.random.normal(mean, sd, n)\n\n\ndef normal(mean=0, var=1):\n    return partial(_normal, mean, var**0.5)")],
+  what="partial over a module-level function: atomic under deepcopy, same draw")
+V("c11-empty-graph-identity-ordering", "C11", "fire", GE, "    W = A * weights\n\n    # Permute rows/columns according to random topological ordering\n",
+  "    W = A * weights\n    if not A.any():\n        return (W, np.arange(p)) if return_ordering else W\n\n    # Permute rows/columns according to random topological ordering\n",
+  rule="PERM.ordering", what="fast path for an empty graph returns the identity ordering: not random for k = 0")
+V("c17-silent-array-copy", "C17", "silent", UT, "        n = len(sample)\n        sample = sample.copy()\n        rng.shuffle(sample)\n", "        sample = np.array(sample)\n        n = len(sample)\n        rng.shuffle(sample)\n",
+  what="np.array(...) copies; the length is taken from the copy")
+V("c17-silent-shape0", "C17", "silent", UT, "        n = len(sample)\n        sample = sample.copy()\n", "        n = sample.shape[0]\n        sample = sample.copy()\n", what="n from shape[0]")
+V("c13-split-shuffles-caller-data", "C13", "fire", UT, "        n = len(sample)\n        sample = sample.copy()\n        rng.shuffle(sample)\n", "        sample = np.asarray(sample)\n        n = len(sample)\n        rng.shuffle(sample)\n",
+  rule="R7.inputs-intact", what="np.asarray does not copy an ndarray: the caller's sample is shuffled, a second identical call differs")
+V("c13-lganm-sample-scales-model", "C13", "fire", LG, "        variances = self.variances.astype(float)\n", "        variances = self.variances\n", rule="R7.inputs-intact", what="interventions overwrite the model's own variances: later seeded calls differ")
